@@ -37,6 +37,7 @@ type Enc struct {
 	Nest     int    `json:"nest,omitempty"`     // wrap every parameter object Nest levels deeper
 	ViaOpt   bool   `json:"viaopt,omitempty"`   // name / group / As given by Provide options instead of tags
 	NoErr    bool   `json:"noerr,omitempty"`    // no trailing error result
+	ErrFirst bool   `json:"errfirst,omitempty"` // the error result comes first instead of last
 	Lib      string `json:"lib,omitempty"`      // use the declared library function of that name
 }
 
